@@ -421,6 +421,14 @@ func c11CancelAll(r *Run, p *Prog) {
 				}
 				why = "a table entry is deleted while its handler may still run and was not cancelled"
 			}
+			// (b') in the helper the completion arm hands the completion, the table and the responses channel to
+			if !ok2 && fn != serve {
+				if sp := resolveServe(&Run{P: p, Prop: r.Prop, FnsSeen: map[string]bool{}}); sp != nil {
+					if sc := completionScope(p, sp); sc.call != nil && sc.fn == fn {
+						ok2 = true
+					}
+				}
+			}
 			r.Check(ok2, "cancel-all", fnName(fn)+": table entry deleted only after cancel or on completion", c.Pos(), why)
 		})
 	}
